@@ -43,6 +43,24 @@ PROPS = {
         "trusted_base": COMMON_TB,
         "assumptions": ["u64 overflow of chunk_index*chunk_size excluded", "serde_json round trip of the configuration is exercised (via=meta), not modelled"],
     },
+    "C14": {
+        "claimed": False,
+        "lean_props": ["ZarrsModel.Props.C14"],
+        "harness": "c14",
+        "rule": "round trips (DataType::metadata_fill_value -> serde_json::to_string -> serde_json::from_slice -> fill_value_from_metadata, and ArrayBuilder -> store_metadata -> Array::open): "
+                "all 256 patterns of bool/int8/uint8/r8; all 65536 patterns of float16 and bfloat16 (16-bit integers/r16 exhaustively in the thorough tier, boundary sample in quick); 32/64-bit "
+                "integers at 0, +-1, 2^k, min, max and random; float32/float64 at +-0, subnormal/normal extremes, +-inf, canonical/quiet/signalling NaN payloads of both signs, powers of two and "
+                "neighbours, decimal-short values (0.1, 1e23, 5e-324 ...) and random patterns; complex pairs of those; raw bits of 8..256 bits; byte strings; UTF-8 strings with quotes, escapes, "
+                "control characters, 2-4 byte sequences, and invalid UTF-8; wrong-size values for every fixed-size type. Rejection stream: ~170 fixed JSON texts (wrong kinds, range boundaries of every "
+                "integer width, float overflow/underflow, near-ties for narrowing, hex strings of wrong length/case/non-ASCII, malformed JSON, surrogates, invalid UTF-8) plus random decimals, "
+                "midpoint-nudged decimals and mutated texts, each against 20 data types; non-trivial = distinct request whose outcome is a value",
+        "nontrivial": lambda l: (" -> json=" in l or " -> val " in l),
+        "exhaustive": True,
+        "exhaustive_scope": "all bit patterns of the 8-bit types and of float16/bfloat16 (every tier); of int16/uint16/r16 (thorough tier)",
+        "trusted_base": COMMON_TB + ["serde_json/ryu number formatting and parsing: the float theorems assume reading returns what was written (NumCodec.Good); each generated case checks the text against the model's correctly rounded reader"],
+        "assumptions": ["native byte order is little-endian", "half's binary64->binary16 path (direct or through binary32 with F16C) and binary64->bfloat16 truncation are accepted either way for numbers that are not exactly representable"],
+        "timeout": 3000,
+    },
     "C11": {
         "lean_props": ["ZarrsModel.Props.C11"],
         "harness": "c11",
